@@ -170,7 +170,7 @@ Lemma create_binds_key : forall ipf e rs na cfg rq now leaf n,
 Proof.
   intros ipf e rs na cfg rq now leaf n H.
   destruct (create_inv _ _ _ _ _ _ _ _ _ H) as (u & ids & _ & _ & Hs).
-  destruct (ca_sign_inv _ _ _ _ _ _ _ _ Hs) as (sg & _ & _ & _ & _ & Hc). cbv zeta in Hc. subst leaf. cbn. auto.
+  destruct (ca_sign_inv _ _ _ _ _ _ _ _ Hs) as (sg & _ & _ & _ & _ & _ & Hc). cbv zeta in Hc. subst leaf. cbn. auto.
 Qed.
 
 Lemma create_ttl : forall ipf e rs na cfg rq now leaf n,
@@ -186,7 +186,8 @@ Proof.
   destruct (create_inv _ _ _ _ _ _ _ _ _ H) as (u & ids & _ & _ & Hs). eapply ca_sign_ttl; eauto.
 Qed.
 
-(* the headline: SANs = the authenticated identities, or the one justified impersonated identity *)
+(* the headline: SANs = the authenticated identities, or the one justified impersonated identity,
+   one SAN entry per identity; no selected identity contains a comma *)
 Lemma create_sans : forall ipf e rs na cfg rq now leaf n,
   create_certificate ipf e rs na cfg rq now = RIssued leaf n ->
   exists u ids,
@@ -194,9 +195,8 @@ Lemma create_sans : forall ipf e rs na cfg rq now leaf n,
     ((imp_of rq = EmptyString /\ ids = identities u) \/
      (exists a, na = Some a /\ imp_of rq <> EmptyString /\ ids = [imp_of rq] /\
                 impersonation_justified a (extract_cluster_id (rq_cluster_ids rq)) (kinfo u) (imp_of rq))) /\
-    c_sans leaf = build_san ipf (join_with comma ids) /\
-    List.length (c_sans leaf) = List.length ids + total_count comma ids /\
-    (Forall (no_char comma) ids -> c_sans leaf = map (classify ipf) ids).
+    Forall (no_char comma) ids /\
+    c_sans leaf = map (classify ipf) ids.
 Proof.
   intros ipf e rs na cfg rq now leaf n H.
   destruct (create_inv _ _ _ _ _ _ _ _ _ H) as (u & ids & Ha & Hsel & Hs).
@@ -204,11 +204,20 @@ Proof.
   assert (Hids : ids <> []).
   { destruct (select_sans_cases _ _ _ _ Hsel) as [[_ ->]|(a & _ & _ & -> & _)]; [exact Hne|discriminate]. }
   exists u, ids. split; [exact Ha|]. split; [exact Hids|]. split; [apply select_sans_cases; exact Hsel|].
-  destruct (ca_sign_inv _ _ _ _ _ _ _ _ Hs) as (sg & _ & _ & _ & _ & Hc). cbv zeta in Hc.
-  assert (Hsan : c_sans leaf = build_san ipf (join_with comma ids)) by (subst leaf; reflexivity).
-  split; [exact Hsan|]. split.
-  - rewrite Hsan. apply build_san_length. exact Hids.
-  - intros Hall. rewrite Hsan. apply build_san_exact; assumption.
+  destruct (ca_sign_inv _ _ _ _ _ _ _ _ Hs) as (sg & _ & _ & _ & _ & Hcomma & Hc). cbv zeta in Hc.
+  apply no_comma_forall in Hcomma. split; [exact Hcomma|].
+  subst leaf. cbn [c_sans]. apply build_san_exact; assumption.
+Qed.
+
+(* a comma in a selected identity (authenticated or impersonated) is an error outcome, never a certificate *)
+Lemma create_comma_refused : forall ipf e rs na cfg rq now u ids,
+  authenticate e rs = Some u -> select_sans na u rq = Some ids ->
+  Exists (fun s => contains_char comma s = true) ids ->
+  exists err, create_certificate ipf e rs na cfg rq now = RSignError err.
+Proof.
+  intros ipf e rs na cfg rq now u ids Ha Hs Hex. unfold create_certificate. rewrite Ha, Hs.
+  destruct (ca_sign_comma_refused ipf cfg (rq_csr rq) ids (requested_ttl (rq_validity rq)) false now Hex) as (err & ->).
+  exists err. reflexivity.
 Qed.
 
 (* the result reads the CSR only through (status, CN-emptiness, key), the metadata only through
@@ -233,19 +242,29 @@ Qed.
 
 (* ------------------------------------------------------------------ authenticators *)
 
-Lemma oidc_panic_iff : forall td auds sub l,
-  oidc_authenticate td auds sub (AudList l) = APanic <->
-  has_prefix "system:serviceaccount" sub = true /\ List.length (split_on colon sub) < 4.
+Lemma nth_error_some_of_len : forall (A : Type) (l : list A) i, i < List.length l -> exists x, nth_error l i = Some x.
 Proof.
-  intros td auds sub l. unfold oidc_authenticate.
-  destruct (has_prefix "system:serviceaccount" sub) eqn:Ep; cbn [negb].
-  - destruct (split_on colon sub) as [|p0 [|p1 [|p2 [|p3 r]]]]; cbn.
-    + split; [intros _; split; [reflexivity|cbn; lia]|reflexivity].
-    + split; [intros _; split; [reflexivity|cbn; lia]|reflexivity].
-    + split; [intros _; split; [reflexivity|cbn; lia]|reflexivity].
-    + split; [intros _; split; [reflexivity|cbn; lia]|reflexivity].
-    + destruct (negb (check_audience l auds)); (split; [discriminate|intros [_ H]; lia]).
-  - split; [discriminate|intros [H _]; discriminate].
+  intros A l i H. destruct (nth_error l i) as [x|] eqn:E; [eauto|].
+  apply nth_error_None in E. lia.
+Qed.
+
+Lemma oidc_total : forall td auds sub aud, oidc_authenticate td auds sub aud <> APanic.
+Proof.
+  intros td auds sub aud. unfold oidc_authenticate. destruct aud as [l|s]; [|discriminate].
+  destruct (negb (has_prefix "system:serviceaccount" sub)); [discriminate|].
+  destruct (Nat.ltb (List.length (split_on colon sub)) 4) eqn:El; [discriminate|].
+  apply Nat.ltb_ge in El.
+  destruct (nth_error_some_of_len _ (split_on colon sub) 2) as (a & ->); [lia|].
+  destruct (nth_error_some_of_len _ (split_on colon sub) 3) as (b & ->); [lia|].
+  destruct (negb (check_audience l auds)); discriminate.
+Qed.
+
+Lemma oidc_short_sub_err : forall td auds sub aud,
+  List.length (split_on colon sub) < 4 -> oidc_authenticate td auds sub aud = AErr.
+Proof.
+  intros td auds sub aud H. unfold oidc_authenticate. destruct aud as [l|s]; [|reflexivity].
+  destruct (negb (has_prefix "system:serviceaccount" sub)); [reflexivity|].
+  apply Nat.ltb_lt in H. rewrite H. reflexivity.
 Qed.
 
 Lemma oidc_ok_inv : forall td auds sub aud ids k,
@@ -257,6 +276,7 @@ Proof.
   intros td auds sub aud ids k H. unfold oidc_authenticate in H.
   destruct aud as [l|s]; [|discriminate].
   destruct (has_prefix "system:serviceaccount" sub) eqn:Ep; cbn [negb] in H; [|discriminate].
+  destruct (Nat.ltb (List.length (split_on colon sub)) 4); [discriminate|].
   destruct (nth_error (split_on colon sub) 2) as [ns|] eqn:E2; [|discriminate].
   destruct (nth_error (split_on colon sub) 3) as [sa|] eqn:E3; [|discriminate].
   destruct (check_audience l auds) eqn:Ea; cbn [negb] in H; [|discriminate].
@@ -302,19 +322,17 @@ Proof.
   destruct chains as [|[|[ids|] ch] chs]; discriminate.
 Qed.
 
-Lemma xfcc_panic_iff : forall ae ha a parsed,
-  xfcc_authenticate ae ha a parsed = APanic <->
-  ae = false /\ ha = false /\ exists lb ins, a = AddrHost false lb ins.
+Lemma xfcc_total : forall ae ha a parsed, xfcc_authenticate ae ha a parsed <> APanic.
 Proof.
   intros ae ha a parsed. unfold xfcc_authenticate.
-  destruct ae, ha; cbn [orb]; try (split; [discriminate|intros (H1 & H2 & _); discriminate]).
-  destruct a as [|is_ip lb ins]; cbn.
-  - split; [discriminate|intros (_ & _ & lb & ins & H); discriminate].
-  - destruct is_ip.
-    + destruct (existsb (fun b => b) ins || lb); [destruct parsed as [[|x es]|]|];
-        (split; [discriminate|intros (_ & _ & lb' & ins' & H); discriminate]).
-    + split; [intros _; split; [reflexivity|split; [reflexivity|exists lb, ins; reflexivity]]|reflexivity].
+  destruct (ae || ha); [discriminate|].
+  destruct (negb (is_trusted_address a)); [discriminate|].
+  destruct parsed as [[|x es]|]; discriminate.
 Qed.
+
+Lemma xfcc_non_ip_untrusted : forall ae ha lb ins parsed,
+  xfcc_authenticate ae ha (AddrHost false lb ins) parsed = AErr.
+Proof. intros. unfold xfcc_authenticate. destruct (ae || ha); reflexivity. Qed.
 
 Lemma xfcc_ok_inv : forall ae ha a parsed ids k,
   xfcc_authenticate ae ha a parsed = AOk ids k ->
@@ -325,8 +343,8 @@ Proof.
   intros ae ha a parsed ids k H. unfold xfcc_authenticate in H.
   destruct ae, ha; cbn [orb] in H; try discriminate.
   destruct a as [|is_ip lb ins]; cbn in H; [discriminate|].
-  destruct is_ip; [|discriminate].
-  destruct (existsb (fun b => b) ins || lb) eqn:Et; [|discriminate].
+  destruct is_ip; cbn in H; [|discriminate].
+  destruct (existsb (fun b => b) ins || lb) eqn:Et; cbn in H; [|discriminate].
   destruct parsed as [[|x es]|]; try discriminate.
   inversion H; subst. repeat split; auto.
   - exists lb, ins. split; [reflexivity|]. apply orb_true_iff in Et. tauto.
